@@ -969,6 +969,61 @@ func extractC03(c *ctxT) {
 	sb.WriteString("end FxVerif.Model.C03\n\nnamespace FxVerif.Gen.C03\nopen FxVerif.Model.C03\n\n")
 	fmt.Fprintf(&sb, "/-- every type with a `ClaimHash` method -/\ndef claimTypes : List String := %s\n\n", leanList(names))
 
+	// what the keeper reads through the interface `types.ExternalClaim` (Attest, TryAttestation, handlers, pruning …):
+	// getters `GetF()` of a field F every claim type has
+	common := map[string]int{}
+	for _, cl := range claims {
+		for _, f := range cl.Fields {
+			common[f[0]]++
+		}
+	}
+	generic := map[string]bool{}
+	var genericSites []string
+	for _, fd := range c.funcDecls(c03Keeper) {
+		if fd.Body == nil {
+			continue
+		}
+		for _, prm := range fd.Type.Params.List {
+			if t := c.src(prm.Type); t != "types.ExternalClaim" {
+				continue
+			}
+			for _, nm := range prm.Names {
+				used := false
+				ast.Inspect(fd.Body, func(n ast.Node) bool {
+					ce, ok := n.(*ast.CallExpr)
+					if !ok {
+						return true
+					}
+					se, ok := ce.Fun.(*ast.SelectorExpr)
+					if !ok {
+						return true
+					}
+					if id, ok := se.X.(*ast.Ident); ok && id.Name == nm.Name && strings.HasPrefix(se.Sel.Name, "Get") {
+						if f := strings.TrimPrefix(se.Sel.Name, "Get"); common[f] == len(claims) {
+							generic[f] = true
+							used = true
+						}
+					}
+					return true
+				})
+				if used {
+					genericSites = append(genericSites, c.pos(fd)+" "+fd.Name.Name)
+				}
+			}
+		}
+	}
+	var gl []string
+	for _, f := range sortedKeys(generic) {
+		gl = append(gl, leanStr(f))
+	}
+	sort.Strings(genericSites)
+	fmt.Fprintf(&sb, "/-- fields x/crosschain/keeper reads through the interface `types.ExternalClaim` (getters of fields every claim type has)\n")
+	for _, st := range genericSites {
+		fmt.Fprintf(&sb, "  %s\n", st)
+	}
+	fmt.Fprintf(&sb, "-/\ndef externalClaimReads : List String := %s\n\n", leanList(gl))
+	c.facts["C03.externalClaimReads"] = sortedKeys(generic)
+
 	// chain table
 	type chainT struct{ name, kind, where string }
 	var chains []chainT
